@@ -67,12 +67,12 @@ type CVecField struct {
 
 type Canon struct {
 	Count    uint64
-	Fields   []string            // as returned by Fields()
-	Terms    map[string][]CTerm  // field -> terms ascending
-	Stored   [][]CStored         // doc -> ordered stored values (incl. _id first)
-	DocIDs   [][]byte            // doc -> DocID
+	Fields   []string              // as returned by Fields()
+	Terms    map[string][]CTerm    // field -> terms ascending
+	Stored   [][]CStored           // doc -> ordered stored values (incl. _id first)
+	DocIDs   [][]byte              // doc -> DocID
 	DV       map[string][][]string // field -> doc -> sorted terms
-	DVFields []string            // sorted VisitableDocValueFields
+	DVFields []string              // sorted VisitableDocValueFields
 	Thes     map[string]*CThes
 	Vec      map[string]*CVecField
 	Beyond   []string
